@@ -4,6 +4,7 @@ import os
 import shutil
 
 import cfggen
+import ext.auditd_c19 as auditd
 import gen
 import mockca
 import vlib
@@ -14,7 +15,7 @@ FINISH = dict(
         "Lean 4.33 kernel; axioms of every theorem within {propext, Classical.choice, Quot.sound}",
         "Lean compiler for acmed_model (evaluates the same definitions the theorems are about)",
         "py/gen.py extractor of the unit table of duration.rs (Gen/Consts.lean, theorem gen_unit_table)",
-        "in-crate probe ops period / rl_new / rl_case / first_request calling the real functions",
+        "in-crate probe ops period / rl_new / rl_case / first_request / first_schedule calling the real functions",
         "modelled, not verified: toml/serde decoding (validated by the mutation runs), nom combinators "
         "(their semantics transliterated in Model/Period.lean and compared on every generated string)",
     ],
@@ -24,7 +25,30 @@ FINISH = dict(
          "configurations: hazard catalogue + field-by-field mutations of a valid configuration, each "
          "loaded by the real start-up path and driven to its first request; outcome class must be "
          "{starts, rejected}. distinct = distinct canonical inputs; non-trivial = reaches the parser / "
-         "the loader (all of them do).",
+         "the loader (all of them do). "
+         "auditd: period strings also with 10^4..10^5 parts and 20..10^5 digits. More configurations "
+         "(cfggen.hazards_more: tables missing / emptied / duplicated, [global] absent or empty, 18 file-name "
+         "formats at the three levels, acyclic chains of 30..34 / 10^3 / 10^4 (thorough 10^5) groups and of 30..34 / "
+         "1000 includes (around and far beyond the loader's nesting limit), groups doubling to 2^11..2^31 hooks, "
+         "4096 / 4098 / 10^4 group members, 500 certificates, "
+         "TOML values nested 10^2..10^5 deep, 4 MB (thorough 20 MB) files, cycles of length 4..50, cycles entered "
+         "through a tail / a second hook entry / a diamond, disjoint and unreferenced cycles, includes of directories, "
+         "absolute paths, `*`, self-matching globs, symlink loops) and the RECURSIVE field mutations "
+         "(cfggen.field_mutations_deep: nested tables, lists of tables, list items; u32 fields get -1, 2^32-1, 2^32, "
+         "2^64; strings get NUL and newline) of a base with EVERY optional field set (cfggen.base_full; quick: per "
+         "field one structural, one type-changing and one type-keeping mutation, thorough: all of them). Every "
+         "configuration is judged three times by the same Spec.C19 classes: probe op first_request; probe op "
+         "first_schedule = real start-up + the real schedule_renewal of every certificate under a 2.5 s time-out, with a "
+         "valid key + certificate pair (90 d / 20 d / 1 h / expired, drawn per directory) installed under the file names "
+         "the configuration renders to; and the REAL binary through main.rs (-f, --no-pid-file or --pid-file drawn per "
+         "case in quick, both in thorough; every hazard + 100 sampled mutations in quick, all in thorough) watched for "
+         "2 s (thorough 3 s): still running | exit 1 with a message and no pid file left | exit 0 'No certificate "
+         "found' hold; a signal, exit 101 or any other status does not. The time-outs bound a single scheduling decision "
+         "/ the watch window, not the load itself, so they do not scale with the size hazards. Configurations that would "
+         "use the compiled-in default directories are loaded through the probe only. Counted, not judged: daemonised "
+         "mode is never run; an include of a FIFO; a file-name template with nested loops; a template line of 65536 "
+         "characters (16-bit column counter of minijinja: panics only where overflow checks are on); the pid file left behind "
+         "when the daemon exits 0 for lack of certificates.",
 )
 
 UNITS = "smhdw"
@@ -71,6 +95,7 @@ def period_part(ctx):
     n = 1500 if ctx.quick() else 40000
     strings = list(FIXED_PERIODS) + [c["s"] for c in vlib.corpus("C19") if "s" in c]
     strings += [gen_period(ctx.rng) for _ in range(n)]
+    strings += auditd.more_periods(ctx)
     ops = [{"op": "period", "s": s} for s in strings]
     impl = vlib.probe(ops)
     mod = vlib.model(ops)
@@ -192,11 +217,13 @@ def config_part(ctx):
             d = os.path.join(scratch, "m", "c%d" % idx)
             idx += 1
             cases.append((label, cfggen.write(os.path.join(d, "main.toml"), cfg), cfg))
+        idx = auditd.add_cases(ctx, cases, scratch, url, helper, idx)
         ops = [{"op": "first_request", "path": p, "timeout_ms": TIMEOUT_MS} for _, p, _ in cases]
-        # several probe processes in parallel would contend for nothing; one is enough (≈10 ms each)
-        impl = vlib.probe(ops, timeout=1800)
+        # several probe processes: most of the time is the limiter's first sleep (100 ms) and the time-outs
+        impl = auditd.probe_parallel(ops)
         # the raw observation goes to Lean: Spec.C19.classify + startupHolds (no interpretation here)
         cverdicts = vlib.model([{"op": "c19_judge", "start_obs": start_obs(res)} for res in impl]) if impl else []
+        auditd.reobserve_hung(ctx, ops, impl, cverdicts, start_obs)
         classes = [cv.get("class", "unknown") for cv in cverdicts]
         for (label, path, cfg), res, cls, cv in zip(cases, impl, classes, cverdicts):
             ctx.count("config:" + cls)
@@ -211,6 +238,8 @@ def config_part(ctx):
                 if label == lab:
                     ctx.sample({"config": label, "outcome": classify(res)})
         ctx.traces += len(cases)
+        auditd.first_schedule_part(ctx, cases, helper, scratch)
+        auditd.daemon_part(ctx, cases)
     finally:
         ca.stop()
         helper.close()
@@ -223,6 +252,8 @@ def replay(ctx):
         r = json.load(f)
     obj = r.get("replay", r)
     vlib.build_acmed()
+    if obj.get("op") in auditd.REPLAY_OPS:
+        return auditd.replay(ctx, obj)
     if obj.get("op") == "period":
         impl = vlib.probe([{"op": "period", "s": obj["s"]}])[0]
         mod = vlib.model([{"op": "period", "s": obj["s"]}])[0]
@@ -254,5 +285,6 @@ def run(ctx):
     limiter_arith(ctx)
     config_part(ctx)
     ctx.assumptions = ["the toml/serde layer is total (validated by the mutation runs, not proved)",
-                       "outcome 'hung' = no answer to the first request within 2.5 s while the limits permit it"]
+                       "outcome 'hung' = no answer to the first request within 2.5 s while the limits permit it "
+                       "(an observation that times out is repeated alone, same time-out, up to twice)"]
     return ctx.finish(**FINISH)
